@@ -144,7 +144,13 @@ pub(crate) fn add(ctx: &mut TulispContext) {
         } else {
             0
         };
-        counter.set(TulispObject::from(count + 1))?;
+        let Some(next_count) = count.checked_add(1) else {
+            return Err(Error::new(
+                ErrorKind::OutOfRange,
+                "gensym-counter overflow".to_string(),
+            ));
+        };
+        counter.set(TulispObject::from(next_count))?;
 
         make_symbol(format!("{prefix}{count}"))
     }
